@@ -102,7 +102,7 @@ func posErr(id int) reporter.ErrorWithPos {
 	return reporter.Error(ast.UnknownSpan("f.proto"), idErr{id})
 }
 
-func ints(xs []int) string {
+func joinInts(xs []int) string {
 	s := make([]string, len(xs))
 	for i, x := range xs {
 		s[i] = strconv.Itoa(x)
@@ -158,7 +158,7 @@ func (e *reporterEngine) Exec(op string) string {
 		}
 		return errID(h.ReporterError())
 	case len(w) == 1 && w[0] == "log":
-		return fmt.Sprintf("reported=[%s] warned=[%s]", ints(e.reported), ints(e.warned))
+		return fmt.Sprintf("reported=[%s] warned=[%s]", joinInts(e.reported), joinInts(e.warned))
 	case len(w) == 3 && w[0] == "conc":
 		g, m := atoi(w[1]), atoi(w[2])
 		var reported, warned []int
